@@ -1,4 +1,6 @@
 import Ufo2ftModel.Props.C06Complete
+import Ufo2ftModel.Props.C06CtxSound
+import Ufo2ftModel.Props.C06Frame
 /-!
 Property C06 — generated mark features make matching anchors coincide.
 
@@ -53,7 +55,7 @@ theorem C06_offset (i : Input) (P : Program) (hwf : wf i = true) (hm : model i =
     (hls : ∀ L ∈ ls, L ∈ P.lookups) (b m : String) (c : Option Nat) (d : Int × Int)
     (h : attach P ls b m c = some d) : d ∈ candidates i b m c := by
   obtain ⟨al, hal, rfl⟩ := model_ok hm
-  exact offset_sound (alwf_of_ok hwf hal) hls h
+  exact offset_sound (alwf_of_ok (wf_wf0 hwf) hal) hls h
 
 /-- **C06_candidate**: when several anchor classes could attach the pair, the attachment chosen is one of the
     source-defined candidates (the statement of C06_offset for the complete lookup list). -/
@@ -87,9 +89,10 @@ theorem C06_ligature (i : Input) (P : Program) (hwf : wf i = true) (hm : model i
 theorem C06_complete (i : Input) (P : Program) (hwf : wf i = true) (hm : model i = .ok P) (b m : String) (c : Option Nat)
     (he : eligible i b m c = true) : (attach P P.lookups b m c).isSome = true := by
   obtain ⟨al, hal, rfl⟩ := model_ok hm
-  have w := alwf_of_ok hwf hal
+  have w := alwf_of_ok (wf_wf0 hwf) hal
   have cv := alcov_of_ok hal
-  obtain ⟨_, _, hcover⟩ := wf_iff i hwf
+  have nl : NoLib i := wf_nolib hwf
+  obtain ⟨_, _, hcover⟩ := wf_iff i (wf_wf0 hwf)
   unfold eligible at he
   cases hfb : findGlyph i b with
   | none => rw [hfb] at he; simp at he
@@ -109,24 +112,28 @@ theorem C06_complete (i : Input) (P : Program) (hwf : wf i = true) (hm : model i
         simp only [Bool.and_eq_true, any_eq_true] at hpair
         obtain ⟨hpk, sb, hsb, hmatch⟩ := hpair
         obtain ⟨hn, _⟩ := markKey_some hmk
-        obtain ⟨am, ham, hmm, hmkey⟩ := na_of_src_mark cv hgm (by rw [hgmn]; exact hincm) hsm hn hpk
-        obtain ⟨ab, hab, hnb, hbkey, hbnum⟩ := na_of_src_base cv hgb (by rw [hgbn]; exact hincb) hsb hpk c hmatch
+        obtain ⟨am, ham, hmm, hmkey⟩ := na_of_src_mark cv nl hgm (by rw [hgmn]; exact hincm) hsm hn hpk
+        obtain ⟨ab, hab, hnb, hbkey, hbnum⟩ := na_of_src_base cv nl hgb (by rw [hgbn]; exact hincb) hsb hpk c hmatch
         rw [hgmn] at ham
         rw [hgbn] at hab
-        have p : Pair al b m ab am := ⟨hab, ham, hnb, hmm, by rw [hmkey, hbkey]⟩
+        obtain ⟨asm0, hasm0, ham0⟩ := ham
+        obtain ⟨asb0, hasb0, hab0⟩ := hab
+        have hplb : ab.ctx = none := noctx w nl hasb0 hab0
+        have p : Pair al b m ab am :=
+          ⟨⟨asb0, hasb0, hab0⟩, ⟨asm0, hasm0, ham0⟩, hnb, hmm, noctx w nl hasm0 ham0, by rw [hmkey, hbkey]⟩
         obtain ⟨fB, fM, inc, mf, hinc, hmf, rB, rL, rM⟩ := route al ab (hcover gb hgb |> fun h => by rw [hgbn] at h; exact h)
         cases c with
         | none =>
           simp only [Option.map_none] at hbnum
           simp only [Bool.or_eq_true] at hcond
           by_cases hmg : b ∈ mgOf i al
-          · obtain ⟨L, hL, hs⟩ := mkmk_attach w p hokm hbnum hmg fM inc mf hinc hmf
+          · obtain ⟨L, hL, hs⟩ := mkmk_attach w p hokm hplb hbnum hmg fM inc mf hinc hmf
             exact attach_isSome_of_mem (rM L hL) hs
           · have hbase : baseOK i b = true := by
               rcases hcond with h | h
-              · exact absurd (mg_of_isMarkGlyph w cv hfb h) hmg
+              · exact absurd (mg_of_isMarkGlyph w cv nl hfb h) hmg
               · exact h
-            obtain ⟨L, hL, hs⟩ := base_attach w p hokm hbnum hmg hbase fB inc mf hinc hmf
+            obtain ⟨L, hL, hs⟩ := base_attach w p hokm hplb hbnum hmg hbase fB inc mf hinc hmf
             exact attach_isSome_of_mem (rB L hL) hs
         | some j =>
           simp only [Option.map_some] at hbnum
@@ -134,10 +141,10 @@ theorem C06_complete (i : Input) (P : Program) (hwf : wf i = true) (hm : model i
           obtain ⟨⟨hnmk, hlig⟩, hnull⟩ := hcond
           have hmg : b ∉ mgOf i al := by
             intro h
-            rw [isMarkGlyph_of_mg w hfb h] at hnmk; simp at hnmk
+            rw [isMarkGlyph_of_mg w nl hfb h] at hnmk; simp at hnmk
           have hnonull : ∀ as, (b, as) ∈ al → ∀ a ∈ as, a.number = some (j + 1) → a.key ≠ "" := by
             intro as has a ha hnum hkey
-            have hsa := w.shape _ has a ha
+            have hsa := w.shape _ has a ha (noctx w nl has ha)
             have hnmark : a.isMark = false := by
               cases hmk' : a.isMark with
               | false => rfl
@@ -152,7 +159,7 @@ theorem C06_complete (i : Input) (P : Program) (hwf : wf i = true) (hm : model i
             have : gb.anchors.any (fun a => isLigName [] (j + 1) a.name.toList) = true :=
               any_eq_true.mpr ⟨s, hs, by rw [hsn]; simpa using hl⟩
             rw [this] at hnull; simp at hnull
-          obtain ⟨L, hL, hs⟩ := lig_attach w p hokm j hbnum hmg hlig hnonull fB inc mf hinc hmf
+          obtain ⟨L, hL, hs⟩ := lig_attach w p hokm hplb j hbnum hmg hlig hnonull fB inc mf hinc hmf
           exact attach_isSome_of_mem (rL L hL) hs
 
 
@@ -215,20 +222,25 @@ theorem mapE_error_iff {α β ε} {f : α → Except ε β} {l : List α} :
         rw [hm] at this; simp at this
 
 theorem namedAnchor_error_iff (q : Q) (s : SrcAnchor) :
-    (∃ e, namedAnchor q s = .error e) ↔ s.name ≠ "" ∧ ∃ e, parseAnchor s.name.toList = .error e := by
+    (∃ e, namedAnchor q s = .error e) ↔
+      s.name ≠ "" ∧ (s.idNoLib = true ∨ ∃ e, parseAnchor s.name.toList = .error e) := by
   unfold namedAnchor
   by_cases hne : s.name = ""
   · simp [hne]
   · rw [if_neg hne]
-    cases hp : parseAnchor s.name.toList with
-    | error e' => simp [hne]
-    | ok p =>
-      simp only [hne, ne_eq, not_false_eq_true, reduceCtorEq, exists_false, and_false, iff_false, not_exists]
-      intro e
-      split <;> simp
+    by_cases hid : s.idNoLib = true
+    · simp [hid, hne]
+    · rw [if_neg hid]
+      cases hp : parseAnchor s.name.toList with
+      | error e' => simp [hne]
+      | ok p =>
+        simp only [hne, hid, ne_eq, not_false_eq_true, reduceCtorEq, exists_false, or_false, and_false, iff_false,
+          not_exists]
+        intro e
+        split <;> simp
 
 theorem glyphAnchors_error_iff (q : Q) (srcs : List SrcAnchor) :
-    (∃ e, glyphAnchors q srcs = .error e) ↔ ∃ s ∈ srcs, s.name ≠ "" ∧ ∃ e, parseAnchor s.name.toList = .error e := by
+    (∃ e, glyphAnchors q srcs = .error e) ↔ ∃ s ∈ srcs, s.name ≠ "" ∧ (s.idNoLib = true ∨ ∃ e, parseAnchor s.name.toList = .error e) := by
   have key : (∃ e, glyphAnchors q srcs = .error e) ↔ ∃ e, mapE (namedAnchor q) srcs = .error e := by
     unfold glyphAnchors
     cases mapE (namedAnchor q) srcs with
@@ -243,7 +255,8 @@ theorem glyphAnchors_error_iff (q : Q) (srcs : List SrcAnchor) :
     passes the GDEF filter carries a non-empty anchor name that parseAnchorName / NamedAnchor reject
     (`_`, `_x_1`, `x_0`, `*`, …: see parse_numbered_mark_error, parse_bare_prefix_error, parse_zero_error). -/
 theorem C06_error (i : Input) : (∃ e, model i = .error e) ↔
-    ∃ g ∈ i.glyphs, included i g.name = true ∧ ∃ s ∈ g.anchors, s.name ≠ "" ∧ ∃ e, parseAnchor s.name.toList = .error e := by
+    ∃ g ∈ i.glyphs, included i g.name = true ∧ ∃ s ∈ g.anchors, s.name ≠ "" ∧
+      (s.idNoLib = true ∨ ∃ e, parseAnchor s.name.toList = .error e) := by
   have hmodel : (∃ e, model i = .error e) ↔ ∃ e, anchorLists i = .error e := by
     unfold model
     cases anchorLists i with
@@ -346,15 +359,170 @@ theorem C06_parse_shape (cs : List Char) (p : Parsed) (h : parseAnchor cs = .ok 
   parseAnchor_shape h hctx hign
 
 
+/-! ### contextual anchors ('*'-prefixed anchors with GPOS_Context object-lib data): `modelX` -/
+
+theorem modelX_ok {i : Input} {X : ProgramX} (h : modelX i = .ok X) :
+    ∃ al cm ck, anchorLists i = .ok al ∧ ctxFeatures i al = .ok (cm, ck) ∧
+      X = ⟨⟨(build i al).classes, orderLookups (build i al).lookups (!cm.refs.isEmpty) (!ck.refs.isEmpty)⟩, cm, ck⟩ := by
+  unfold modelX at h
+  cases ha : anchorLists i with
+  | error e => rw [ha] at h; simp at h
+  | ok al =>
+    rw [ha] at h; simp only at h
+    cases hc : ctxFeatures i al with
+    | error e => rw [hc] at h; simp at h
+    | ok p =>
+      obtain ⟨cm, ck⟩ := p
+      rw [hc] at h; simp only [Except.ok.injEq] at h
+      exact ⟨al, cm, ck, rfl, hc, h.symm⟩
+
+theorem mem_orderLookups {ls : List Lookup} {a b : Bool} {L : Lookup} (h : L ∈ orderLookups ls a b) : L ∈ ls := by
+  unfold orderLookups at h
+  simp only [mem_append] at h
+  rcases h with ((((h | h) | h) | h) | h) | h
+  all_goals (first | (split at h <;> first | exact (mem_filter.mp h).1 | simp at h) | exact (mem_filter.mp h).1)
+
+theorem attachLookup_congr {P P' : Program} (h : P.classes = P'.classes) (L : Lookup) (b m : String) (c : Option Nat) :
+    attachLookup P L b m c = attachLookup P' L b m c := by
+  simp only [attachLookup, markIn, h]
+
+theorem attach_congr {P P' : Program} (h : P.classes = P'.classes) (ls : List Lookup) (b m : String) (c : Option Nat) :
+    attach P ls b m c = attach P' ls b m c := by
+  unfold attach
+  congr 1
+  funext L
+  exact attachLookup_congr h L b m c
+
+/-- **C06_offset_general** (frame, soundness half): also in the presence of contextual anchors and object-lib data, whatever
+    the NON-contextual lookups (mark2base / mark2liga / mark2mark of mark, mkmk, abvm, blwm — any sub-list) attach is
+    qround(anchor k or k_N on b) − qround(anchor _k on m) for PLAIN source anchor names: a contextual anchor `*k` never
+    supplies or changes the default attachment of its glyph (that is the plain anchor `k`, and none if there is no `k`). -/
+theorem C06_offset_general (i : Input) (X : ProgramX) (hwf : wf0 i = true) (hm : modelX i = .ok X) (ls : List Lookup)
+    (hls : ∀ L ∈ ls, L ∈ X.plain.lookups) (b m : String) (c : Option Nat) (d : Int × Int)
+    (h : attach X.plain ls b m c = some d) : d ∈ candidates i b m c := by
+  obtain ⟨al, cm, ck, hal, _, rfl⟩ := modelX_ok hm
+  have h2 : attach (build i al) ls b m c = some d := (attach_congr (by rfl) ls b m c).trans h
+  exact offset_sound (alwf_of_ok hwf hal) (fun L hL => mem_orderLookups (hls L hL)) h2
+
+/-- no contextual anchor is ever written into a non-contextual lookup -/
+theorem C06_plain_lookups_have_no_contextual_anchor (i : Input) (X : ProgramX) (hm : modelX i = .ok X) :
+    ∃ al, anchorLists i = .ok al ∧ ∀ L ∈ X.plain.lookups, ∀ e ∈ L.entries, ∀ (j : Nat) (comp : List (String × Int × Int)),
+      e.comps[j]? = some comp → ∀ t ∈ comp, ∃ a, AnchorIn al e.glyph a ∧ a.ctx = none ∧ t.2 = (otRound a.x, otRound a.y) := by
+  obtain ⟨al, cm, ck, hal, _, rfl⟩ := modelX_ok hm
+  refine ⟨al, hal, ?_⟩
+  intro L hL e he j comp hj t ht
+  obtain ⟨bA, htb, hin, _, _, hpl⟩ := build_lookups_ok i al L (mem_orderLookups hL) e he j comp hj t ht
+  exact ⟨bA.a, hin, hpl, by rw [htb]⟩
+
+/-- **C06_ctx_offset**: whatever a lookup referenced from a contextual (chaining) rule of the mark or mkmk feature attaches is
+    qround(contextual anchor on b) − qround(anchor _k on m): the anchor on `b` is '*'-prefixed, carries object-lib data, and
+    its name without '*' and '.suffix' is `k` (or `k_N`, N = component + 1). -/
+theorem C06_ctx_offset (i : Input) (X : ProgramX) (hwf : wf0 i = true) (hm : modelX i = .ok X) (L : Lookup)
+    (hL : L ∈ X.markCtx.refs ++ X.mkmkCtx.refs) (b m : String) (c : Option Nat) (d : Int × Int)
+    (h : attachLookup X.plain L b m c = some d) : d ∈ ctxCandidates i b m c := by
+  obtain ⟨al, cm, ck, hal, hctx, rfl⟩ := modelX_ok hm
+  have h2 : attachLookup (build i al) L b m c = some d := (attachLookup_congr (by rfl) L b m c).trans h
+  exact ctx_sound (alwf_of_ok hwf hal) hctx hL h2
+
+/-- the Bool predicate the driver evaluates on the observed referenced lookups holds of the model's -/
+theorem C06_ctx_holds (i : Input) (X : ProgramX) (hwf : wf0 i = true) (hm : modelX i = .ok X) (L : Lookup)
+    (hL : L ∈ X.markCtx.refs ++ X.mkmkCtx.refs) (qs : List Query) :
+    holdsCtxOffset i (tableOf X.plain [L] qs) = true := by
+  simp only [holdsCtxOffset, all_eq_true, contains_iff_mem]
+  intro e he
+  have h1 := mem_tableOf he
+  obtain ⟨L', hL', hat⟩ := attach_some h1
+  simp only [mem_singleton] at hL'; subst hL'
+  exact C06_ctx_offset i X hwf hm L' hL _ _ _ _ hat
+
+/-- **C06_frame**: on a font without object-lib data (`wf`) the writer with the contextual code is the writer without it:
+    same mark classes, same lookups in the same order, no contextual lookups — so every theorem about `model` is a theorem
+    about `modelX` there. -/
+theorem C06_frame (i : Input) (P : Program) (hwf : wf i = true) (hm : model i = .ok P) :
+    modelX i = .ok ⟨P, ⟨[], []⟩, ⟨[], []⟩⟩ := by
+  obtain ⟨al, hal, rfl⟩ := model_ok hm
+  have w := alwf_of_ok (wf_wf0 hwf) hal
+  have hno : ∀ e ∈ al, ∀ a ∈ e.2, a.ctx = none := fun e he a ha => noctx w (wf_nolib hwf) he ha
+  unfold modelX
+  rw [hal]
+  simp only [ctxFeatures_nil hno, isEmpty_nil, Bool.not_true, orderLookups_build]
+
+/-! ### rejected contextual data -/
+
+/-- a context string with two or more ';' cannot be split into (lookupflag part, context): ValueError, as in the code
+    (`before, after = fullcontext.split(";")`); with at most one ';' the split succeeds -/
+theorem C06_ctx_split (s : String) :
+    (2 ≤ (s.toList.filter (· == ';')).length → splitCtx s = .error .valueError) ∧
+    ((s.toList.filter (· == ';')).length ≤ 1 → ∃ p, splitCtx s = .ok p) := by
+  unfold splitCtx
+  constructor
+  · intro h
+    match hl : s.toList.filter (· == ';') with
+    | [] => rw [hl] at h; simp at h
+    | [_] => rw [hl] at h; simp at h
+    | _ :: _ :: _ => rfl
+  · intro h
+    match hl : s.toList.filter (· == ';') with
+    | [] => exact ⟨_, rfl⟩
+    | [_] => exact ⟨_, rfl⟩
+    | _ :: _ :: _ => rw [hl] at h; simp at h
+
+/-- **C06_ctx_error**: what makes the contextual part raise, per (context, anchor key): ValueError exactly for a context with two
+    or more ';'; otherwise KeyError exactly when the key has no mark class (`self.context.markClasses[anchorKey]`) -/
+theorem C06_ctx_error (km : List (String × String)) (feat pre : String) (kind : Kind) (c k : String) (names : List String)
+    (entries : List Entry) (st : CtxFeature) :
+    (ctxStep km feat pre kind c k names entries st = .error .valueError ↔ 2 ≤ (c.toList.filter (· == ';')).length) ∧
+    (ctxStep km feat pre kind c k names entries st = .error .keyErrorMarkClass ↔
+      (c.toList.filter (· == ';')).length ≤ 1 ∧ (k = "" ∨ alookup k km = none)) ∧
+    (∀ e, ctxStep km feat pre kind c k names entries st = .error e → e = .valueError ∨ e = .keyErrorMarkClass) := by
+  obtain ⟨s1, s2⟩ := C06_ctx_split c
+  by_cases h2 : 2 ≤ (c.toList.filter (· == ';')).length
+  · have hs := s1 h2
+    have : ctxStep km feat pre kind c k names entries st = .error .valueError := by simp [ctxStep, hs]
+    refine ⟨⟨fun _ => h2, fun _ => this⟩, ⟨fun h => by rw [this] at h; simp at h, fun h => by omega⟩, ?_⟩
+    intro e he; rw [this] at he; simp at he; exact Or.inl he.symm
+  · obtain ⟨p, hp⟩ := s2 (by omega)
+    by_cases hk : k = ""
+    · have : ctxStep km feat pre kind c k names entries st = .error .keyErrorMarkClass := by simp [ctxStep, hp, hk]
+      refine ⟨⟨fun h => by rw [this] at h; simp at h, fun h => absurd h h2⟩, ⟨fun _ => ⟨by omega, Or.inl hk⟩, fun _ => this⟩, ?_⟩
+      intro e he; rw [this] at he; simp at he; exact Or.inr he.symm
+    · have hkb : (k == "") = false := by simpa using hk
+      cases hl : alookup k km with
+      | none =>
+        have : ctxStep km feat pre kind c k names entries st = .error .keyErrorMarkClass := by simp [ctxStep, hp, hkb, hl]
+        refine ⟨⟨fun h => by rw [this] at h; simp at h, fun h => absurd h h2⟩, ⟨fun _ => ⟨by omega, Or.inr rfl⟩, fun _ => this⟩, ?_⟩
+        intro e he; rw [this] at he; simp at he; exact Or.inr he.symm
+      | some cls =>
+        have : ∃ r, ctxStep km feat pre kind c k names entries st = .ok r := by simp [ctxStep, hp, hkb, hl]
+        obtain ⟨r, hr⟩ := this
+        refine ⟨⟨fun h => by rw [hr] at h; simp at h, fun h => absurd h h2⟩,
+          ⟨fun h => by rw [hr] at h; simp at h, fun h => by rcases h.2 with h | h; exact absurd h hk; simp at h⟩, ?_⟩
+        intro e he; rw [hr] at he; simp at he
+
+/-- the writer as a whole raises iff the anchor lists raise (malformed anchor name, or an anchor identifier on a glyph
+    without "public.objectLibs") or the contextual part does -/
+theorem C06_modelX_error (i : Input) : (∃ e, modelX i = .error e) ↔
+    (∃ e, model i = .error e) ∨ ∃ al, anchorLists i = .ok al ∧ ∃ e, ctxFeatures i al = .error e := by
+  unfold modelX model
+  cases ha : anchorLists i with
+  | error e => simp
+  | ok al =>
+    cases hc : ctxFeatures i al with
+    | error e => simp [hc]
+    | ok p => simp [hc]
+
 /-! ### non-vacuity: a concrete font meets the hypotheses, and the theorems pin its attachments down -/
+
+/-- an anchor without object-lib data -/
+def sa (n : String) (x y : Q) : SrcAnchor := { name := n, x := x, y := y }
 
 /-- base `a` (top, bottom), ligature `f_i` (top_1, top_2 with a fractional y), marks `acutecomb` (_top, and `top` for
     mark-to-mark) and `gravecomb` (_top at x = 5.5) -/
 def exampleFont : Input :=
-  { glyphs := [⟨"a", [⟨"top", 100, 500⟩, ⟨"bottom", 100, 0⟩]⟩,
-               ⟨"f_i", [⟨"top_1", 100, 500⟩, ⟨"top_2", 300, (1021 : Q) / 2⟩]⟩,
-               ⟨"acutecomb", [⟨"_top", 10, 20⟩, ⟨"top", 10, 200⟩]⟩,
-               ⟨"gravecomb", [⟨"_top", (11 : Q) / 2, 20⟩]⟩],
+  { glyphs := [⟨"a", [sa "top" (100) (500), sa "bottom" (100) (0)]⟩,
+               ⟨"f_i", [sa "top_1" (100) (500), sa "top_2" (300) ((1021 : Q) / 2)]⟩,
+               ⟨"acutecomb", [sa "_top" (10) (20), sa "top" (10) (200)]⟩,
+               ⟨"gravecomb", [sa "_top" ((11 : Q) / 2) (20)]⟩],
     gdef := none, quant := 1, group := true, abvm := ["a"], notAbvm := ["f_i", "acutecomb", "gravecomb"] }
 
 example : wf exampleFont = true := by decide
@@ -365,11 +533,13 @@ theorem exampleFont_ok : ∃ P, model exampleFont = .ok P := by
   | ok P => exact ⟨P, rfl⟩
   | error e =>
     exfalso
-    obtain ⟨g, hg, _, s, hs, _, e', he⟩ := (C06_error exampleFont).mp ⟨e, h⟩
-    have hall : exampleFont.glyphs.all (fun g => g.anchors.all (fun s => (parseAnchor s.name.toList).toBool)) = true := by
-      decide
+    obtain ⟨g, hg, _, s, hs, _, hbad⟩ := (C06_error exampleFont).mp ⟨e, h⟩
+    have hall : exampleFont.glyphs.all (fun g => g.anchors.all (fun s =>
+        !s.idNoLib && (parseAnchor s.name.toList).toBool)) = true := by decide
     have := all_eq_true.mp (all_eq_true.mp hall g hg) s hs
-    rw [he] at this; simp [Except.toBool] at this
+    rcases hbad with hid | ⟨e', he⟩
+    · rw [hid] at this; simp at this
+    · rw [he] at this; simp [Except.toBool] at this
 
 /-- C06_complete + C06_candidate + C06_sound determine the attachments of the example: base (through abvm), ligature
     component 2 (511 − 20 = 491 after rounding 510.5 up and 5.5 up to 6), mark-to-mark, and nothing for a pair without
@@ -408,5 +578,21 @@ example : parseAnchor "_top".toList = .ok ⟨true, "top".toList, none, false⟩ 
     parseAnchor "_x_1".toList = .error .valueError ∧ parseAnchor "_".toList = .error .valueError ∧
     parseAnchor "top_0".toList = .error .valueError ∧ parseAnchor "*".toList = .error .assertionError :=
   ⟨by rfl, by rfl, by rfl, by rfl, by rfl, by rfl, by rfl, by rfl⟩
+
+
+/-- a base with a plain `top` and a contextual `*top.alt` (context "* b"), and a mark: the plain candidate is the plain anchor,
+    the contextual candidate is the contextual anchor; the hypothesis `wf0` of the contextual theorems is met, `wf` is not -/
+def exampleCtx : Input :=
+  { glyphs := [⟨"a", [sa "top" 100 500, { name := "*top.alt", x := 150, y := (1101 : Q) / 2, lib := some "* b" }]⟩,
+               ⟨"b", []⟩, ⟨"acutecomb", [sa "_top" 10 20]⟩],
+    gdef := none, quant := 1, group := false, abvm := [], notAbvm := ["a", "b", "acutecomb"] }
+
+example : wf0 exampleCtx = true ∧ wf exampleCtx = false := by decide
+example : candidates exampleCtx "a" "acutecomb" none = [(90, 480)] ∧
+    ctxCandidates exampleCtx "a" "acutecomb" none = [(140, 531)] := by decide +kernel
+example : splitCtx "lookupflag IgnoreMarks; * b" = .ok ("lookupflag IgnoreMarks", "* b") ∧
+    splitCtx "a; b; * c" = .error .valueError ∧
+    posText "* b" "a e" "MC_top" "ContextualMark_0" = "pos [a e] @MC_top' lookup ContextualMark_0 b;" :=
+  ⟨by rfl, by rfl, by decide +kernel⟩
 
 end Ufo2ft.C06
